@@ -342,6 +342,10 @@ class TFLiteSupportedOperators:
         # Rsqrt specific checks
         self.specific_constraints[Op.Rsqrt].append(TFLiteSupportedOperators.constraint_rsqrt_input_int8)
 
+        # Log, Sqrt and Gelu specific checks (converted to a LUT like Exp, see TFLiteSemantic for Exp):
+        for op_type in (Op.Log, Op.Sqrt, Op.Gelu):
+            self.specific_constraints[op_type].append(TFLiteSupportedOperators.constraint_lut_input_signed)
+
         # Slice specific checks:
         self.specific_constraints[Op.Slice].append(TFLiteSupportedOperators.constraint_slice_inputs_const)
 
@@ -1042,6 +1046,13 @@ class TFLiteSupportedOperators:
         "IFM must be int8"
         ifm_dtype = op.ifm.dtype
         valid = ifm_dtype == DataType.int8
+        return valid, f"Op has ifm_dtype={ifm_dtype}"
+
+    @staticmethod
+    def constraint_lut_input_signed(op):
+        "IFM must be int8 or int16"
+        ifm_dtype = op.ifm.dtype
+        valid = ifm_dtype in (DataType.int8, DataType.int16)
         return valid, f"Op has ifm_dtype={ifm_dtype}"
 
     @staticmethod
